@@ -76,6 +76,22 @@ func RecvFilterList(c *rsyncwire.Conn) (*filterRuleList, error) {
 	return &l, nil
 }
 
+// ParseFilterList builds the filter list from the rules a client was given on
+// its command line (the same form RecvFilterList reads from the wire).
+func ParseFilterList(rules []string) (*filterRuleList, error) {
+	var l filterRuleList
+	for _, line := range rules {
+		fr, err := parseFilter(line)
+		if err != nil {
+			return nil, err
+		}
+		if err := l.addRule(fr); err != nil {
+			return nil, err
+		}
+	}
+	return &l, nil
+}
+
 const (
 	filtruleInclude = 1 << iota
 	filtruleClearList
